@@ -260,6 +260,9 @@ def histories(ctx, nhist, length):
     table = ops_table()
     rng = ctx.rng
     for h in range(nhist):
+        if ctx.out_of_time():
+            ctx.notes.append(f"deep search stopped after {h} histories (failing input found or time cap)")
+            break
         pool_seed = rng.randrange(10 ** 9)
         import random
         pool = make_pool(random.Random(pool_seed))
@@ -300,6 +303,9 @@ def histories(ctx, nhist, length):
 
 def correspondence(ctx):
     histories(ctx, ctx.budget(120, 700), ctx.budget(30, 40))
+    # the process-wide ε / δ caches: every tensor asked twice, in two orders (also with swapped arguments), entry by entry
+    from props import c05
+    c05.eps_delta(ctx, prefix="C12")
 
 
 def replay(ctx, rec):
